@@ -328,6 +328,13 @@ def finish(run, level="model_checking", rule="", assumptions=None, extra_cov=Non
     pid = run.pid
     findings = load_findings()
     infra = [v for v in run.verdicts if v["v"] and v["v"][0] == "ENV-MISSING"]
+    real = [v for v in run.verdicts if not (v["v"] and v["v"][0] == "ENV-MISSING")]
+    if infra and real:
+        # a rejected step can leave an object in a state for which the planner logged no facts;
+        # the rejections themselves are the verdict, the follow-up "missing fact" events are dropped
+        log("%d event(s) lacked environment facts downstream of %d rejected event(s); reporting the rejections" % (len(infra), len(real)))
+        run.verdicts = real
+        infra = []
     if infra:
         raise Infra("specification needed an environment fact the harness did not log: %s (event %s)" %
                     (infra[0]["v"], json.dumps(shorten(infra[0]["event"]))[:600]))
